@@ -62,6 +62,12 @@ def param_strategy(name: str):
     )
 
 
+def sfloats(lo: float, hi: float):
+    """floats of either sign with magnitude in [lo, hi] (no subnormal / tiny magnitudes: the complex step
+    h = 1e-30 times such a value would underflow in *my* derivative, not in pyttb)."""
+    return st.one_of(st.floats(lo, hi, allow_nan=False), st.floats(-hi, -lo, allow_nan=False))
+
+
 def data_value(kind: str, small: bool = False):
     """One data value in the loss's data domain."""
     if kind == "binary":
@@ -74,7 +80,7 @@ def data_value(kind: str, small: bool = False):
         return st.one_of(st.just(0.0), st.just(1.0), st.integers(2, 6).map(float),
                          st.floats(1e-2 if small else 1e-3, hi, allow_nan=False))
     hi = 10.0 if small else 1e3
-    return st.one_of(st.just(0.0), st.integers(-6, 6).map(float), st.floats(-hi, hi, allow_nan=False))
+    return st.one_of(st.just(0.0), st.integers(-6, 6).map(float), sfloats(1e-3, hi))
 
 
 def data_class(x: float) -> str:
@@ -96,8 +102,8 @@ def model_value(name: str):
     if lb == 0.0:
         return st.one_of(st.just(0.0), st.floats(1e-8, 1e-3), st.floats(1e-3, 1.0), st.floats(1.0, 1e3))
     if name in ("bernoulli_logit", "poisson_log"):
-        return st.one_of(st.just(0.0), st.floats(-5, 5), st.floats(-30, 30))
-    return st.one_of(st.just(0.0), st.floats(-5, 5), st.floats(-1e3, 1e3))
+        return st.one_of(st.just(0.0), sfloats(1e-6, 5), sfloats(1e-3, 30))
+    return st.one_of(st.just(0.0), sfloats(1e-6, 5), sfloats(1e-3, 1e3))
 
 
 # --------------------------------------------------------------------------
@@ -202,7 +208,7 @@ def factor_value(name: str):
     """Factor-matrix entries: >= 0 for losses with lower bound 0 (zeros included), either sign otherwise."""
     if LOSSES[name]["lb"] == 0.0:
         return st.one_of(st.just(0.0), st.sampled_from([0.5, 1.0, 2.0]), st.floats(0.05, 3.0), st.floats(0.05, 3.0))
-    return st.one_of(st.just(0.0), st.integers(-2, 2).map(float), st.floats(-2.0, 2.0), st.floats(-2.0, 2.0))
+    return st.one_of(st.just(0.0), st.integers(-2, 2).map(float), sfloats(0.01, 2.0), sfloats(0.01, 2.0))
 
 
 @st.composite
